@@ -32,7 +32,7 @@ PROPS = {"C09": dict(
         "MemoryBackend/MemoryLockBackend of the repository's test suite are faithful object/lock stores",
     ],
     technique="grammar-based chain generation at HTTP level with construction-known validity and independent RFC 6962 entry derivation",
-    budget={"quick": 600, "thorough": 2400},
+    budget={"quick": 1500, "thorough": 3600},
     units=[
         rapid("ctlog", "internal/ctlog", "^TestVerifC09Submissions$", 60, 500),
     ] + _finding)}
